@@ -145,6 +145,16 @@ fn install_panic_hook() {
     }));
 }
 
+/// (message, location) of the most recent panic on this thread
+pub fn take_last_panic() -> Option<(String, String)> {
+    // (a copy: a nested catch_unwind may re-raise, and the engine wants to see it too)
+    LAST_PANIC.with(|p| p.borrow().clone())
+}
+
+pub fn is_harness_location(loc: &str) -> bool {
+    loc.contains("/rt/crate/src/")
+}
+
 pub enum Outcome {
     Pass,
     Skip(String),
@@ -174,7 +184,7 @@ fn run_case(run: ScnFn, case_seed: u64) -> CaseResult {
                 .with(|p| p.borrow_mut().take())
                 .unwrap_or_else(|| ("<unknown>".into(), "<unknown>".into()));
             // a panic raised by the harness' own source is a harness bug, not a finding
-            if loc.contains("/rt/crate/src/") {
+            if is_harness_location(&loc) {
                 Outcome::HarnessBug(format!("harness panic at {loc}: {msg}"))
             } else {
                 Outcome::Fail(Failure {
